@@ -12,6 +12,10 @@ from .front import dropped_nodes
 DEFAULT_UNROLL = 70
 
 
+def _is_star(x):
+    return isinstance(x, str) and x == '*'
+
+
 class Outcome:
     def __init__(self, kind, value=None):
         self.kind = kind        # 'return' | 'raise'
@@ -71,7 +75,7 @@ class Engine:
     def ufun(self, name, n, ret=None, argsorts=None):
         key = (name, n)
         if key not in self.ufuns:
-            sorts = (argsorts or [z3.IntSort()] * n) + [ret or z3.IntSort()]
+            sorts = (argsorts if argsorts is not None else [z3.IntSort()] * n) + [ret if ret is not None else z3.IntSort()]
             self.ufuns[key] = z3.Function(name, *sorts)
         return self.ufuns[key]
 
@@ -130,6 +134,8 @@ class Engine:
     def make_param(self, it, st, name, tstr, k):
         T_ = parse_type(tstr) if tstr else INT
         ar = self.ar
+        if T_ == 'any':
+            return self.sym_value(st, self.T_ANY, 'p!' + name, PARAM_REF_BASE + k)
         if T_ == 'kwargs':
             names = []
             types = {}
@@ -194,16 +200,19 @@ class Engine:
         try:
             for c in u.of('let'):
                 nm = ast.literal_eval(c.args[0])
-                st.ghost['names'][nm] = it.eval(c.args[1])
+                v, g = it.guarded(lambda: it.eval(c.args[1]))
+                if g:
+                    raise EngineError('let(%s): expression needs a definite type (contract line %d)' % (nm, c.line))
+                st.ghost['names'][nm] = v
             for c in u.of('requires'):
                 for a in c.args:
                     st.cur_line = 'contract:%d' % c.line
-                    st.assume(it.truth(it.eval(a)))
+                    st.assume(it.gtruth(a))
             for c in u.of('assume'):
                 why = ast.literal_eval(c.args[0])
                 self.result.assumptions.add('assume: ' + why)
                 for a in c.args[1:]:
-                    st.assume(it.truth(it.eval(a)))
+                    st.assume(it.gtruth(a))
         finally:
             st.spec -= 1
         self.flush_side(st, 'requires')
@@ -287,7 +296,7 @@ class Engine:
                     if 'when' in c.kw:
                         st.heap_stack.append(st.old)
                         try:
-                            w = it.truth(it.eval(c.kw['when']))
+                            w = it.gtruth(c.kw['when'])
                         finally:
                             st.heap_stack.pop()
                         st.oblige(label + '.when', 'post', w, line='%s->%s' % (st.cur_line, exc.cls), props=props, info={'exc': exc.cls})
@@ -295,7 +304,7 @@ class Engine:
                         st.oblige(label + '.allowed', 'post', z3.BoolVal(True), line='%s->%s' % (st.cur_line, exc.cls), props=props)
                     if 'post' in c.kw:
                         st.ghost['exc'] = exc
-                        g = it.truth(it.eval(c.kw['post']))
+                        g = it.gtruth(c.kw['post'])
                         st.oblige(label + '.post', 'post', g, line='%s->%s' % (st.cur_line, exc.cls), props=props, info={'exc': exc.cls})
                 if not matched:
                     st.oblige(u.name + '.no_exception', 'noexc', z3.BoolVal(False), line='%s->%s' % (st.cur_line, exc.cls),
@@ -311,17 +320,18 @@ class Engine:
                         label = u.name + '.ensures@%d' % c.line
                         exprs = c.args
                     props = ast.literal_eval(c.kw['props']) if 'props' in c.kw else None
-                    for e in exprs:
+                    for k, e in enumerate(exprs):
                         st.cur_line = line
-                        g = it.truth(it.eval(e))
-                        self.flush_side(st, label)
-                        st.oblige(label, 'post', g, line='ret@%s' % line, props=props, info={'clause_line': c.line})
+                        g = it.gtruth(e)
+                        lab = label if len(exprs) == 1 else '%s/%d' % (label, k + 1)
+                        self.flush_side(st, lab)
+                        st.oblige(lab, 'post', g, line='ret@%s' % line, props=props, info={'clause_line': c.line})
                 # exact raises: on normal return the `when` condition must be false
                 for c in u.of('raises'):
                     if 'when' in c.kw and ('exact' not in c.kw or ast.literal_eval(c.kw['exact'])):
                         st.heap_stack.append(st.old)
                         try:
-                            w = it.truth(it.eval(c.kw['when']))
+                            w = it.gtruth(c.kw['when'])
                         finally:
                             st.heap_stack.pop()
                         label = ast.literal_eval(c.kw['label']) if 'label' in c.kw else u.name + '.raises'
@@ -336,17 +346,25 @@ class Engine:
         """frame condition of the unit itself: only if a modifies clause is given"""
         u = self.unit
         mods = u.of('modifies')
-        if not mods:
+        used = any(self.fi is not None and self.fi.qual in x.strs('bycontract') for x in self.units)
+        if not mods and not used:
             return
-        allowed = self.modifies_targets(it, st, mods)
+        allowed = self.modifies_targets(it, st, mods) if mods else {}
         if allowed is None:
             return
+        if self.fi is not None and self.fi.name == '__init__':
+            selfv = st.entry_env[self.fi.params()[0]]
+            for attr, T_ in (self.schema.classes.get(selfv.cls) or {}).items():
+                for suf in self.slot_suffixes(T_):
+                    nm = 'a:%s.%s%s' % (selfv.cls, attr, suf)
+                    if not _is_star(allowed.get(nm)):
+                        allowed.setdefault(nm, []).append(selfv.t)
         for name, arr in st.H.items():
             old = st.old.get(name, st.H0.get(name))
             if old is None or arr.get_id() == old.get_id():
                 continue
             tgt = allowed.get(name)
-            if tgt == '*':
+            if isinstance(tgt, str) and tgt == '*':
                 continue
             expect = old
             for r in (tgt or []):
@@ -361,9 +379,9 @@ class Engine:
         allowed = {}
 
         def add(name, ref):
-            if ref == '*':
+            if isinstance(ref, str) and ref == '*':
                 allowed[name] = '*'
-            elif allowed.get(name) != '*':
+            elif not _is_star(allowed.get(name)):
                 allowed.setdefault(name, []).append(ref)
         for c in clauses:
             for a in c.args:
@@ -493,7 +511,7 @@ class Engine:
             if isinstance(s, ast.Return):
                 return it.eval(s.value) if s.value is not None else VNone()
             if isinstance(s, ast.If):
-                c = it.truth(it.eval(s.test))
+                c = it.gtruth(s.test)
                 cs = z3.simplify(c)
                 rest = stmts[i + 1:]
                 if z3.is_true(cs):
@@ -533,7 +551,11 @@ class Engine:
         st = it.st
         fn = self.fn_const(fi.qual)
         self.emit_event(it, st, fn, args, kwargs)
-        self.havoc_everything(st, keep_trace=True)
+        eff = [ast.literal_eval(c.args[0]) for c in self.unit.of('effects')]
+        if eff and eff[0] == 'everything':
+            self.havoc_everything(st, keep_trace=True)
+        else:
+            self.result.assumptions.add('opaque callees (%s) do not modify the state of the object under verification; re-entrancy through them is not modelled in this unit' % fi.qual)
         T_ = None
         for uu in self.units_by_key.get(fi.key, []):
             for c in uu.of('returns'):
@@ -567,10 +589,21 @@ class Engine:
     # ----- contract application
     def apply_contract(self, it, fi, cands, args, kwargs):
         st = it.st
-        cu = cands[0]
-        if len(cands) > 1:
-            raise Unsupported('several contract variants for %s at a call site' % fi.key)
         env = it.bind_args(fi, args, kwargs)
+        if len(cands) > 1:
+            kwv = [v for v in env.values() if isinstance(v, VKwargs)]
+            if kwv:
+                keys = set(kwv[0].d)
+                def kwnames(x):
+                    s_ = set()
+                    for c in x.of('kwargs'):
+                        s_.update(ast.literal_eval(a_) for a_ in c.args)
+                        s_.update(c.kw)
+                    return s_
+                cands = [x for x in cands if kwnames(x) == keys]
+            if len(cands) != 1:
+                raise Unsupported('cannot select a contract variant for %s at a call site' % fi.key)
+        cu = cands[0]
         # evaluate in a frame that sees only the callee's parameters
         cls = fi.cls.name if fi.cls else None
         st.frames.append(Frame(fi, dict(env), cls))
@@ -585,7 +618,7 @@ class Engine:
                 st.ghost['names'][ast.literal_eval(c.args[0])] = it.eval(c.args[1])
             for c in cu.of('requires'):
                 for a in c.args:
-                    g = it.truth(it.eval(a))
+                    g = it.gtruth(a)
                     st.oblige('%s.pre(%s)' % (self.unit.name, cu.name), 'pre', g, info={'clause_line': c.line})
             pre = st.snapshot()
             st.old = pre
@@ -594,7 +627,7 @@ class Engine:
             for c in cu.of('raises'):
                 if 'when' not in c.kw:
                     raise Unsupported('callee raises clause without when: ' + cu.name)
-                w = it.truth(it.eval(c.kw['when']))
+                w = it.gtruth(c.kw['when'])
                 whens.append((c, w))
             st.spec -= 1
             try:
@@ -615,6 +648,14 @@ class Engine:
                 allowed = self.modifies_targets(it, st, mods)
             else:
                 allowed = {}
+            if fi.name == '__init__' and allowed is not None:
+                selfv = env[fi.params()[0]]
+                for attr, T_ in (self.schema.classes.get(selfv.cls) or {}).items():
+                    for suf in self.slot_suffixes(T_):
+                        allowed.setdefault('a:%s.%s%s' % (selfv.cls, attr, suf), [])
+                        if not _is_star(allowed['a:%s.%s%s' % (selfv.cls, attr, suf)]):
+                            allowed['a:%s.%s%s' % (selfv.cls, attr, suf)].append(selfv.t)
+                            st.harr('a:%s.%s%s' % (selfv.cls, attr, suf), self.slot_sort(st, T_, suf))
             if allowed is None:
                 self.havoc_everything(st)
             else:
@@ -622,12 +663,21 @@ class Engine:
             rt = None
             for c in cu.of('returns'):
                 rt = parse_type(ast.literal_eval(c.args[0]))
-            result = self.sym_value(st, rt, 'ret!%d' % next(st.fresh_counter)) if rt is not None else VNone()
+            if rt is not None and reflike(rt):
+                st.spec -= 1
+                try:
+                    result = mk_value(st, rt, st.new_ref())
+                finally:
+                    st.spec += 1
+            else:
+                result = self.sym_value(st, rt, 'ret!%d' % next(st.fresh_counter)) if rt is not None else VNone()
             st.ghost['result'] = result
             for c in cu.of('ensures'):
+                if 'export' in c.kw and not ast.literal_eval(c.kw['export']):
+                    continue        # proved for the callee, not needed by callers
                 exprs = c.args[1:] if (len(c.args) >= 2 and isinstance(c.args[0], ast.Constant) and isinstance(c.args[0].value, str)) else c.args
                 for e in exprs:
-                    st.pc.append(z3.simplify(it.truth(it.eval(e))))
+                    st.pc.append(z3.simplify(it.gtruth(e)))
             st.side = []
             return result
         finally:
@@ -667,7 +717,7 @@ class Engine:
             if '@events' in allowed and (name.startswith('k:ev.') or name in ('LEN', 'EL', 'ER', 'KIND')):
                 continue
             arr = st.H[name]
-            if tgt == '*':
+            if isinstance(tgt, str) and tgt == '*':
                 st.H[name] = st.fresh('hv!' + name, arr.sort())
             else:
                 for r in tgt:
@@ -739,7 +789,7 @@ class Engine:
                     label = ast.literal_eval(c.args[0])
                     props = ast.literal_eval(c.kw['props']) if 'props' in c.kw else None
                     for e in c.args[1:]:
-                        g = it.truth(it.eval(e))
+                        g = it.gtruth(e)
                         self.flush_side(st, label)
                         st.oblige(label, 'callout', g, props=props)
             finally:
@@ -869,7 +919,7 @@ class Engine:
                     elem = self.iter_elem(it, kind, data, i)
                 it.assign(node.target, elem)
             else:
-                c = it.truth(it.eval(node.test))
+                c = it.gtruth(node.test)
                 if count >= bound:
                     st.oblige('%s.unwind(loop %d, %d iterations)' % (self.unit.name, od, bound), 'unwind', z3.Not(c), line=node.lineno)
                     st.assume(z3.Not(c))
@@ -921,7 +971,7 @@ class Engine:
                 has = self.iter_has(it, kind, data, i)
                 enter = st.branch_bool(has, 'for')
             else:
-                enter = st.branch_bool(it.truth(it.eval(node.test)), 'while')
+                enter = st.branch_bool(it.gtruth(node.test), 'while')
             if not enter:
                 it.exec_block(node.orelse)
                 return
@@ -971,7 +1021,7 @@ class Engine:
                     if isinstance(e, ast.Constant) and isinstance(e.value, str):
                         label = e.value
                         continue
-                    g = it.truth(it.eval(e))
+                    g = it.gtruth(e)
                     self.flush_side(st, 'invariant')
                     st.oblige('%s.%s(loop %d)' % (label or self.unit.name, 'inv', od), kind, g, line=node.lineno, info={'clause_line': c.line, 'expr': ast.unparse(e)[:200]})
         finally:
@@ -987,7 +1037,7 @@ class Engine:
                 for e in rest:
                     if isinstance(e, ast.Constant) and isinstance(e.value, str):
                         continue
-                    st.assume(it.truth(it.eval(e)))
+                    st.assume(it.gtruth(e))
             st.side = []
         finally:
             st.spec -= 1
@@ -1014,9 +1064,9 @@ class Engine:
             return
         touched = {}     # array name -> set of ref terms or '*'
         for name, ref in scan.arrays:
-            if ref == '*':
+            if isinstance(ref, str) and ref == '*':
                 touched[name] = '*'
-            elif touched.get(name) != '*':
+            elif not _is_star(touched.get(name)):
                 touched.setdefault(name, [])
                 if ref is not None and all(ref.get_id() != r.get_id() for r in touched[name]):
                     touched[name].append(ref)
@@ -1025,7 +1075,7 @@ class Engine:
             if sort is None:
                 continue
             arr = st.harr(name, sort)
-            if tg == '*':
+            if isinstance(tg, str) and tg == '*':
                 st.H[name] = st.fresh('lp!' + name, arr.sort())
             else:
                 new = st.fresh('lp!' + name, arr.sort())
@@ -1096,7 +1146,12 @@ class Engine:
             saved_clock = st.clock
             st.clock = getattr(st, 'entry_clock', st.clock)
             try:
-                return it.eval(node.args[0])
+                v = it.eval(node.args[0])
+                if isinstance(v, VList):
+                    v = seq_of(st, v)
+                elif isinstance(v, (VRef, VTable, VQueue)) and not (isinstance(v, VRef) and v.cls == 'Event'):
+                    raise EngineError('old(%s) yields an object reference; wrap the whole expression in old()' % ast.unparse(node.args[0]))
+                return v
             finally:
                 st.heap_stack.pop()
                 st.clock = saved_clock
@@ -1111,6 +1166,15 @@ class Engine:
             finally:
                 st.frames.pop()
                 st.heap_stack.pop()
+        if name == 'implies':
+            a = it.gtruth(node.args[0])
+            b = it.gtruth(node.args[1])
+            return VBool(z3.Implies(a, b))
+        if name == 'iff':
+            return VBool(it.gtruth(node.args[0]) == it.gtruth(node.args[1]))
+        if name == 'ite':
+            c = it.gtruth(node.args[0])
+            return it.spec_ite(c, node.args[1], node.args[2])
         if name in ('forall', 'exists'):
             lam = node.args[0]
             if not isinstance(lam, ast.Lambda):
@@ -1135,7 +1199,7 @@ class Engine:
                         env2[names[0]] = it.vint(k)
                         st.frames.append(Frame(st.frames[-1].func, env2, st.frames[-1].cls))
                         try:
-                            parts.append(it.truth(it.eval(lam.body)))
+                            parts.append(it.gtruth(lam.body))
                         finally:
                             st.frames.pop()
                     if name == 'forall':
@@ -1143,7 +1207,7 @@ class Engine:
                     return VBool(z3.simplify(z3.Or(parts)) if parts else z3.BoolVal(False))
             st.frames.append(Frame(st.frames[-1].func, env, st.frames[-1].cls))
             try:
-                body = it.truth(it.eval(lam.body))
+                body = it.gtruth(lam.body)
             finally:
                 st.frames.pop()
             if name == 'forall':
@@ -1162,7 +1226,7 @@ class Engine:
                 env[names[1]] = mk_value(st, tb.val, z3.Select(table_val(st, tb), kv))
             st.frames.append(Frame(st.frames[-1].func, env, st.frames[-1].cls))
             try:
-                body = it.truth(it.eval(lam.body))
+                body = it.gtruth(lam.body)
             finally:
                 st.frames.pop()
             return VBool(z3.ForAll([kv], z3.Implies(z3.Select(table_dom(st, tb), kv), body)))
@@ -1444,9 +1508,9 @@ def _havoc_loop(self, it, node, od):
         return
     touched = {}
     for name, ref in scan.arrays:
-        if ref == '*':
+        if isinstance(ref, str) and ref == '*':
             touched[name] = '*'
-        elif touched.get(name) != '*':
+        elif not _is_star(touched.get(name)):
             touched.setdefault(name, [])
             if ref is not None and all(ref.get_id() != r.get_id() for r in touched[name]):
                 touched[name].append(ref)
@@ -1460,7 +1524,7 @@ def _havoc_loop(self, it, node, od):
                 if sort is None:
                     continue
         arr = st.harr(name, sort)
-        if tg == '*':
+        if isinstance(tg, str) and tg == '*':
             st.H[name] = st.fresh('lp!' + name, arr.sort())
         else:
             new = st.fresh('lp!' + name, arr.sort())
